@@ -65,6 +65,10 @@ type c09Rig struct {
 
 	mu           sync.Mutex // commitActive; held while a copy that needs the commit syncer idle is running
 	commitActive bool
+	curDcc       string // the commit in progress (commit syncer goroutine only)
+	curFirst     bool
+	curTx        int
+	parked       bool // the harness owns the flush schedule (else the registry flushes after every block flush)
 
 	confirmed atomic.Uint64
 	upper     atomic.Uint64
@@ -104,7 +108,7 @@ func (s *c09Spy) committedUpTo(rnd basics.Round) (basics.Round, basics.Round) {
 
 func (s *c09Spy) prepareCommit(dcc *deferredCommitContext) error {
 	if s.first {
-		s.rig.commitBegin()
+		s.rig.commitBegin(dcc)
 		s.rig.snap("prepareCommit-first", c09Dcc(dcc), c09RoleCommit, dcc.catchpointFirstStage)
 	} else {
 		s.rig.snap("prepareCommit-last", c09Dcc(dcc), c09RoleCommit, dcc.catchpointFirstStage)
@@ -153,10 +157,54 @@ func c09Dcc(dcc *deferredCommitContext) string {
 	return fmt.Sprintf("%d+%d", dcc.oldBase, dcc.offset)
 }
 
-func (g *c09Rig) commitBegin() {
+func (g *c09Rig) commitBegin(dcc *deferredCommitContext) {
 	g.mu.Lock()
 	g.commitActive = true
+	g.curDcc, g.curFirst, g.curTx = c09Dcc(dcc), dcc.catchpointFirstStage, 0
 	g.mu.Unlock()
+}
+
+// c09Store wraps the tracker store handle used by the registry's commitRound and by the catchpoint tracker: after every
+// read-write transaction they run during a commit (committed or rolled back) it offers one more crash instant.
+type c09Store struct {
+	trackerdb.Store
+	rig *c09Rig
+}
+
+func (st *c09Store) after() {
+	g := st.rig
+	g.mu.Lock()
+	active := g.commitActive
+	g.curTx++
+	ctx, first, i := g.curDcc, g.curFirst, g.curTx
+	g.mu.Unlock()
+	if active {
+		g.snap("after-tracker-db-transaction", fmt.Sprintf("%s#%d", ctx, i), c09RoleCommit, first)
+	}
+}
+
+func (st *c09Store) Transaction(fn trackerdb.TransactionFn) error {
+	err := st.Store.Transaction(fn)
+	st.after()
+	return err
+}
+
+func (st *c09Store) TransactionWithRetryClearFn(fn trackerdb.TransactionFn, rc trackerdb.RetryClearFn) error {
+	err := st.Store.TransactionWithRetryClearFn(fn, rc)
+	st.after()
+	return err
+}
+
+func (st *c09Store) TransactionContext(ctx context.Context, fn trackerdb.TransactionFn) error {
+	err := st.Store.TransactionContext(ctx, fn)
+	st.after()
+	return err
+}
+
+func (st *c09Store) TransactionContextWithRetryClearFn(ctx context.Context, fn trackerdb.TransactionFn, rc trackerdb.RetryClearFn) error {
+	err := st.Store.TransactionContextWithRetryClearFn(ctx, fn, rc)
+	st.after()
+	return err
 }
 
 func (g *c09Rig) commitEnd() {
@@ -314,6 +362,9 @@ func (g *c09Rig) open() error {
 	trs = append(trs, l.trackers.trackers...)
 	trs = append(trs, &c09Spy{rig: g})
 	l.trackers.trackers = trs
+	wrapped := &c09Store{Store: l.trackers.dbs, rig: g}
+	l.trackers.dbs = wrapped
+	l.catchpoint.dbs = wrapped
 	l.trackers.mu.Unlock()
 	l.trackerMu.Unlock()
 	return nil
@@ -340,7 +391,7 @@ func c09Quiesce(l *Ledger) {
 
 func (g *c09Rig) quiesce() {
 	c09Quiesce(g.l)
-	c09Park(g.l, true)
+	c09Park(g.l, g.parked)
 }
 
 // commit forces a tracker commit exactly like the block queue syncer triggers one (Ledger.notifyCommit).
@@ -681,7 +732,7 @@ func (c *c09Case) evalImage(t *rapid.T, img *c09Image) {
 		nontrivial = int64(peek.trackerRound) < peek.blockMax
 	case "prepareCommit-first", "prepareCommit-last", "in-tx-before-trackers", "in-tx-after-trackers":
 		nontrivial = true
-	case "postCommitUnlocked-before-catchpoint-work", "postCommitUnlocked-after-catchpoint-work", "postCommit":
+	case "postCommitUnlocked-before-catchpoint-work", "postCommitUnlocked-after-catchpoint-work", "postCommit", "after-tracker-db-transaction":
 		nontrivial = img.firstStage
 	}
 	c.images++
@@ -772,13 +823,14 @@ func c09Run(tb *testing.T, t *rapid.T, vk *vkCtx) {
 		cfg.CatchpointTracking = int64(rapid.SampledFrom([]int{1, 2}).Draw(t, "victim.catchpointTracking"))
 	}
 	rig := &c09Rig{tb: tb, cfg: cfg, genesis: w.Genesis, dir: dir, prefix: filepath.Join(dir, "victim"), occ: map[string]int{}, skipped: map[string]int{},
-		all: vkThorough(), seed: rapid.Uint64().Draw(t, "imageSeed"), maxTaken: vkN(14, 90)}
+		all: vkThorough(), seed: rapid.Uint64().Draw(t, "imageSeed"), maxTaken: vkN(14, 90), parked: rapid.IntRange(0, 3).Draw(t, "victim.parked") != 0}
 	c.rig = rig
 	if err := rig.open(); err != nil {
 		t.Fatalf("ENGINE: OpenLedger(victim): %v", err)
 	}
 	defer rig.close()
-	c.tracef("victim lookback=%d archival=%v catchpoints=%v(tracking %d) blocks=%d", cfg.MaxAcctLookback, cfg.Archival, catchpoints, cfg.CatchpointTracking, n)
+	c.tracef("victim lookback=%d archival=%v catchpoints=%v(tracking %d) parked=%v blocks=%d", cfg.MaxAcctLookback, cfg.Archival, catchpoints, cfg.CatchpointTracking, rig.parked, n)
+	vk.Labelf("history:parked=%v", rig.parked)
 
 	next := basics.Round(1)
 	for next <= c.n {
@@ -874,8 +926,8 @@ func c09Bucket(n int) string {
 }
 
 const c09Rule = "fault enumeration: Engine C histories of 10-26 (thorough: 10-40) blocks (general transaction mix) are fed to an on-disk ledger (drawn MaxAcctLookback 1-6, archival or not, catchpoint tracking off / interval 4 with or without data files) " +
-	"in bursts of 1-3 AddBlock calls interleaved with forced tracker commits and clean reopens; two spy trackers (first and last in the registry's tracker list) take byte copies of all ledger files at: " +
-	"block DB flushed (committedUpTo, before any tracker commit), prepareCommit (first/last), inside the tracker DB transaction before and after the real trackers' commitRound, postCommit, postCommitUnlocked before and after the catchpoint tracker's file work, " +
+	"in bursts of 1-3 AddBlock calls interleaved with forced tracker commits and clean reopens (flush timer parked for 3/4 of the histories, free running for the rest); two spy trackers (first and last in the registry's tracker list) take byte copies of all ledger files at: " +
+	"block DB flushed (committedUpTo, before any tracker commit), prepareCommit (first/last), inside the tracker DB transaction before and after the real trackers' commitRound, right after every tracker DB transaction of a commit (wrapped store handle), postCommit, postCommitUnlocked before and after the catchpoint tracker's file work, " +
 	"and the feeding goroutine after every WaitForCommit/Wait return, between AddBlock calls and at quiescence (thorough: every instant; quick: a keyed third, at most 14 per history). A copy is only taken while no other goroutine can be writing a database. " +
 	"One evaluation = one image reopened with OpenLedger and checked: contiguous byte-identical block prefix 1..k, k >= every confirmed durable round, tracker round <= k (read from the image before opening), all account/resource/kv/creator lookups and totals at every served round equal the model of the prefix, " +
 	"remaining blocks added on top converge to the full history. Non-trivial: image taken after the block DB flush with the tracker DB behind, during prepareCommit, inside the tracker transaction, or around a catchpoint first stage. Distinct: by history, victim schedule and instant."
